@@ -297,6 +297,13 @@ class RegularPolygonPixelRegion(PolygonPixelRegion):
     meta = RegionMetaDescr('The meta attributes as a |RegionMeta|')
     visual = RegionVisualDescr('The visual attributes as a |RegionVisual|.')
 
+    def __setattr__(self, name, value):
+        if name == 'nvertices':
+            type(self).nvertices._validate(value)
+            if value < 3:
+                raise ValueError('nvertices must be >= 3')
+        super().__setattr__(name, value)
+
     def __init__(self, center, nvertices, radius, angle=0. * u.deg,
                  meta=None, visual=None):
 
